@@ -5,6 +5,7 @@
    A message is its UTF-8 octet list: [length m] is the octet count. *)
 From Coq Require Import String.
 From NC Require Import Model.Base Model.Lit Model.Writer Spec.WireSpec Proofs.WriterProofs.
+From NC Require Import Model.WriterSched Proofs.WriterSchedProofs.
 
 (* The write loop under EVERY answer pattern of the transport (any accepted counts >= 1, also
    larger than what is left; 0 / negative / exception at any call; oracle ending early):
@@ -136,3 +137,126 @@ Proof.
   eapply il_put; [reflexivity|]. eapply il_put; [reflexivity|]. eapply il_put; [reflexivity|].
   apply il_done. intros [|[|t]]; reflexivity.
 Qed.
+
+(* ====================================================================================================
+   Submitters RACING the worker: Model/WriterSched.v is a transition system with one label per access to
+   shared state (`connected` read in send, the queue put, q.empty(), _send_ready(), the dequeue, the reads of
+   _hello_pending and _base that decide the framing, every _transport_write call with its answer, the failure
+   path, and the assignment of _base by the connecting thread).  The theorems quantify over EVERY label
+   sequence the step function accepts from the initial state: any number of submitters with any programs,
+   any interleaving, any answers of the transport.  [lentries b ls] are the trace's own puts
+   (thread, message, _base in force at the put) in trace order; [e_frame] frames a message with that base.
+   tools/harness/wr_check.py validates the effect traces of the real Session.send / Session.run pair,
+   run under a deterministic scheduler, against the extracted step function.
+   ==================================================================================================== *)
+
+(* At every point of every interleaving the octets the transport has accepted are a prefix of the concatenated
+   frames of the messages in the order of their queue puts: whole frames of a prefix of the puts, then at most a
+   strict prefix of the frame of the NEXT put -- no frame interleaved, skipped or repeated. *)
+Theorem C02_sched_wire_prefix : forall b progs ls s, wrun (winit b false progs) ls = Some s ->
+  prefix_of (ws_wire s) (frames (lentries b ls)) /\
+  exists done partial rest, lentries b ls = done ++ rest /\ ws_wire s = frames done ++ partial /\
+    (partial = [] \/ exists e rest', rest = e :: rest' /\ strict_prefix_of partial (e_frame e)).
+Proof. exact c02_sched_wire_prefix. Qed.
+Print Assumptions C02_sched_wire_prefix.
+
+(* ... and when the worker stands between two messages with the queue empty, exactly all of them. *)
+Theorem C02_sched_drained : forall b progs ls s, wrun (winit b false progs) ls = Some s ->
+  ws_q s = [] -> (ws_w s = PTop \/ ws_w s = PSel) -> ws_wire s = frames (lentries b ls).
+Proof. exact c02_sched_drained. Qed.
+Print Assumptions C02_sched_drained.
+
+(* Step-bound liveness, for every scheduler: take any reachable state s whose worker has not failed, and any
+   continuation ls2 in which every write call is answered with a positive count.  Once the worker has made
+   cost(puts so far) steps -- 6 + frame length per message, + 2 -- beyond 3 per negative _send_ready() answer,
+   every message whose put completed before s is on the wire completely (in put order, by the theorem above). *)
+Theorem C02_sched_eventually : forall b progs ls s ls2 s',
+  wrun (winit b false progs) ls = Some s -> ws_err s = None ->
+  wrun s ls2 = Some s' -> forallb accepted_write ls2 = true ->
+  (cost (lentries b ls) + 3 * notready ls2 <= wsteps ls2)%nat ->
+  exists more, ws_wire s' = frames (lentries b ls) ++ more.
+Proof. exact c02_sched_eventually. Qed.
+Print Assumptions C02_sched_eventually.
+
+(* A refused write (0, negative, exception) at any point of any interleaving: the accepted octets are the whole
+   frames of the earlier puts and a strict prefix of the current frame, the error carries exactly the unsent rest,
+   and whatever any thread does afterwards nothing more reaches the wire and the error stays. *)
+Theorem C02_sched_failure : forall b progs ls s u, wrun (winit b false progs) ls = Some s -> ws_err s = Some u ->
+  (exists done e rest partial, lentries b ls = done ++ e :: rest /\ ws_wire s = frames done ++ partial /\
+     e_frame e = partial ++ unsent_of_err u /\ unsent_of_err u <> []) /\
+  (forall ls' s', wrun s ls' = Some s' -> ws_wire s' = ws_wire s /\ ws_err s' = Some u).
+Proof. exact c02_sched_failure. Qed.
+Print Assumptions C02_sched_failure.
+
+(* ... the worker never fails while every write is answered with a positive count ... *)
+Theorem C02_sched_no_spurious_failure : forall b progs ls s, wrun (winit b false progs) ls = Some s ->
+  forallb accepted_write ls = true -> ws_err s = None.
+Proof. exact c02_sched_no_spurious_failure. Qed.
+Print Assumptions C02_sched_no_spurious_failure.
+
+(* ... and once close() has cleared `connected`, a thread that is not already past its `connected` test puts
+   nothing any more (its send raises TransportError instead of queueing a message nobody will write). *)
+Theorem C02_sched_closed_refuses : forall ls s s' t, wrun s ls = Some s' -> ws_conn s = false -> not_checked s t ->
+  of_thread t (map put_of (ws_puts s')) = of_thread t (map put_of (ws_puts s)).
+Proof. exact c02_sched_closed_refuses. Qed.
+Print Assumptions C02_sched_closed_refuses.
+
+(* The puts of one thread, in trace order, are a prefix of its program: program order is kept, nothing is added. *)
+Theorem C02_sched_program_order : forall b progs ls s t, wrun (winit b false progs) ls = Some s ->
+  exists rest, nth t progs [] = of_thread t (lputs ls) ++ rest.
+Proof. exact c02_sched_program_order. Qed.
+Print Assumptions C02_sched_program_order.
+
+(* ---- non-vacuity: concrete interleavings ---- *)
+Definition after (o : option wstate) (P : wstate -> Prop) : Prop := match o with Some s => P s | None => False end.
+Definition sa1 : bytes := Eval compute in lit "<a1/>"%string.
+Definition sa2 : bytes := Eval compute in lit "a2"%string.
+Definition sb1 : bytes := Eval compute in lit "<b1>x</b1>"%string.
+Definition sx_progs : list (list bytes) := [[sa1; sa2]; [sb1]].
+(* thread 1 puts while the frame of a1 is half written; thread 0's second put follows; one not-ready answer *)
+Definition sx_trace : list label :=
+  [LChk 0 true; LPut 0 sa1; LEmpty false; LReady true; LGet sa1; LPendRd false; LBaseRd B11;
+   LWrite (frame B11 sa1) (Accept 3); LChk 1 true; LPut 1 sb1; LWrite (skipn 3 (frame B11 sa1)) (Accept 100); LSelect;
+   LChk 0 true; LPut 0 sa2; LEmpty false; LReady false; LSelect; LEmpty false; LReady true; LGet sb1; LPendRd false; LBaseRd B11;
+   LWrite (frame B11 sb1) (Accept 100); LSelect; LEmpty false; LReady true; LGet sa2; LPendRd false; LBaseRd B11;
+   LWrite (frame B11 sa2) (Accept 1); LWrite (skipn 1 (frame B11 sa2)) (Accept 100); LSelect; LEmpty true; LSelect].
+Example C02_sched_ex_interleaved :
+  after (wrun (winit B11 false sx_progs) sx_trace) (fun s => ws_q s = [] /\ ws_w s = PTop /\ ws_err s = None /\
+    lputs sx_trace = [(0%nat, sa1); (1%nat, sb1); (0%nat, sa2)] /\
+    ws_wire s = frame B11 sa1 ++ frame B11 sb1 ++ frame B11 sa2 /\
+    decode11 (ws_wire s) = Some [sa1; sb1; sa2]).
+Proof. vm_compute. repeat split; reflexivity. Qed.
+(* _base assigned between two puts (the queue is empty): each message is framed with the base of its put *)
+Example C02_sched_ex_setbase :
+  after (wrun (winit B10 false [[sa1]; [sb1]])
+    [LChk 0 true; LPut 0 sa1; LEmpty false; LReady true; LGet sa1; LPendRd false; LBaseRd B10; LSetBase B11; LChk 1 true; LPut 1 sb1;
+     LWrite (frame B10 sa1) (Accept 100); LSelect; LEmpty false; LReady true; LGet sb1; LPendRd false; LBaseRd B11;
+     LWrite (frame B11 sb1) (Accept 100); LSelect]) (fun s => ws_wire s = frame B10 sa1 ++ frame B11 sb1).
+Proof. vm_compute. reflexivity. Qed.
+(* ... and the assignment is not accepted while a request is queued (the environment assumption of the model) *)
+Example C02_sched_ex_setbase_guard :
+  wrun (winit B10 false [[sa1]]) [LChk 0 true; LPut 0 sa1; LSetBase B11] = None.
+Proof. vm_compute. reflexivity. Qed.
+(* a refusal inside the second frame while a third message is queued: error with the unsent rest, close, a later send refused *)
+Definition sx_fail : list label :=
+  [LChk 0 true; LPut 0 sa1; LChk 1 true; LPut 1 sb1; LEmpty false; LReady true; LGet sa1; LPendRd false; LBaseRd B10;
+   LWrite (frame B10 sa1) (Accept 100); LSelect; LEmpty false; LReady true; LGet sb1; LPendRd false; LBaseRd B10;
+   LWrite (frame B10 sb1) (Accept 4); LChk 0 true; LWrite (skipn 4 (frame B10 sb1)) Neg; LPut 0 sa2;
+   LDispErr (SessionClose (skipn 4 (frame B10 sb1))); LClose].
+Example C02_sched_ex_failure :
+  after (wrun (winit B10 false sx_progs) sx_fail) (fun s =>
+    ws_err s = Some (SessionClose (skipn 4 (frame B10 sb1))) /\ ws_conn s = false /\
+    ws_wire s = frame B10 sa1 ++ firstn 4 (frame B10 sb1) /\ map put_of (ws_q s) = [(0%nat, sa2)] /\
+    wstep s (LChk 0 true) = None /\ wstep s (LEmpty false) = None).
+Proof. vm_compute. repeat split; reflexivity. Qed.
+(* the hypotheses of the step bound are satisfiable: 15 worker steps for the 7-octet frame of "a" under 1.0 *)
+Definition sx_a : bytes := Eval compute in lit "a"%string.
+Definition sx_live : list label :=
+  [LEmpty false; LReady true; LGet sx_a; LPendRd false; LBaseRd B10; LWrite (frame B10 sx_a) (Accept 2);
+   LWrite (skipn 2 (frame B10 sx_a)) (Accept 9); LSelect; LEmpty true; LSelect; LEmpty true; LSelect; LEmpty true; LSelect; LEmpty true].
+Example C02_sched_ex_eventually :
+  after (wrun (winit B10 false [[sx_a]]) [LChk 0 true; LPut 0 sx_a]) (fun s => ws_err s = None /\
+    after (wrun s sx_live) (fun s' => forallb accepted_write sx_live = true /\
+      (cost (lentries B10 [LChk 0 true; LPut 0 sx_a]) + 3 * notready sx_live <=? wsteps sx_live)%nat = true /\
+      ws_wire s' = frame B10 sx_a)).
+Proof. vm_compute. repeat split; reflexivity. Qed.
